@@ -824,6 +824,148 @@ fn part_c(ctx: &mut Ctx) {
     }
 }
 
+// ------------------------------------------------------------------------------------------------
+// (d) a read fault between a request and its reply: the late reply must go to nobody else
+
+#[derive(Clone, Debug)]
+pub struct FaultCase {
+    pub prior: u8,
+    /// None: plain call; Some(j): `more` stream, j items consumed before the fault
+    pub more_items: Option<u8>,
+    pub kind: u8,
+    pub late_reply: bool,
+    /// later operations: 0 call, 1 more (two items), 2 oneway
+    pub later: Vec<u8>,
+}
+
+fn fault_json(c: &FaultCase) -> Value {
+    json!({"read_fault": {"prior": c.prior, "more_items": c.more_items, "kind": c.kind, "late_reply": c.late_reply, "later": c.later}})
+}
+
+fn fault_from(v: &Value) -> FaultCase {
+    let f = &v["read_fault"];
+    FaultCase {
+        prior: f["prior"].as_u64().unwrap_or(0) as u8,
+        more_items: f["more_items"].as_u64().map(|x| x as u8),
+        kind: f["kind"].as_u64().unwrap_or(0) as u8,
+        late_reply: f["late_reply"].as_bool().unwrap_or(true),
+        later: f["later"].as_array().map(|a| a.iter().map(|x| x.as_u64().unwrap_or(0) as u8).collect()).unwrap_or_default(),
+    }
+}
+
+pub fn run_read_fault(c: &FaultCase) -> Result<(), Fail> {
+    use std::sync::atomic::Ordering::SeqCst;
+    let (mut fake, armed, kind) = Fake::with_faulty_reader();
+    kind.store(c.kind as u32, SeqCst);
+    for i in 0..c.prior {
+        let tok = 100 + i as u64;
+        fake.push_replies(&[json!({"parameters": {"tok": tok}})]);
+        match vcall(&fake.conn, "org.x.Op", json!({"tok": tok})).call() {
+            Ok(v) if v["tok"] == tok => {}
+            other => return Err(Fail::new("fault/prior-call", format!("call before any fault: {:?}", other.map_err(|e| kind_name(&e))))),
+        }
+    }
+    // the call that meets the fault
+    let victim = 500u64;
+    let mut a = vcall(&fake.conn, "org.x.Op", json!({"tok": victim}));
+    let rest: Vec<Value>;
+    let outcome: Result<Value, String> = match c.more_items {
+        None => {
+            armed.store(1, SeqCst);
+            rest = vec![json!({"parameters": {"tok": victim}})];
+            let r = a.call().map_err(|e| kind_name(&e));
+            r
+        }
+        Some(j) => {
+            let items: Vec<Value> = (0..j).map(|x| json!({"continues": true, "parameters": {"tok": victim, "j": x}})).collect();
+            fake.push_replies(&items);
+            if let Err(e) = a.more() {
+                return Err(Fail::new("fault/more-failed", format!("more() on an idle connection failed: {}", kind_name(&e))));
+            }
+            for x in 0..j {
+                match a.next() {
+                    Some(Ok(v)) if v["tok"] == victim && v["j"] == x as u64 => {}
+                    other => return Err(Fail::new("fault/iterator-item", format!("item {} before the fault: {:?}", x, other.map(|r| r.map_err(|e| kind_name(&e)))))),
+                }
+            }
+            armed.store(1, SeqCst);
+            rest = vec![json!({"continues": true, "parameters": {"tok": victim, "j": j}}), json!({"parameters": {"tok": victim, "j": j as u64 + 1}})];
+            match a.next() {
+                Some(r) => r.map_err(|e| kind_name(&e)),
+                None => Err("None".into()),
+            }
+        }
+    };
+    if let Ok(v) = &outcome {
+        // nothing was readable: a success can only be invented
+        return Err(Fail::new("fault/success-without-reply", format!("the read of the reply failed ({:?}) yet the call returned {}", crate::fake::FAULT_KINDS[c.kind as usize % 4], v)));
+    }
+    armed.store(0, SeqCst);
+    if c.late_reply {
+        // the service answers late: these bytes belong to the victim call and to nobody else
+        let _ = fake.try_push_replies(&rest);
+    }
+    for (i, op) in c.later.iter().enumerate() {
+        let tok = 900 + i as u64;
+        let mut b = vcall(&fake.conn, "org.x.Op", json!({"tok": tok}));
+        let foreign = |v: &Value| v["tok"] == victim;
+        match op {
+            0 => {
+                let _ = fake.try_push_replies(&[json!({"parameters": {"tok": tok}})]);
+                if let Ok(v) = b.call() {
+                    if foreign(&v) {
+                        return Err(Fail::new("fault/late-reply-delivered-to-another-call", format!("call #{} after a failed read (tok {}) was handed {} - the late reply to the earlier call (case {:?})", i, tok, v, c)));
+                    }
+                }
+            }
+            1 => {
+                let _ = fake.try_push_replies(&[json!({"continues": true, "parameters": {"tok": tok, "j": 0}}), json!({"parameters": {"tok": tok, "j": 1}})]);
+                if b.more().is_ok() {
+                    for _ in 0..4 {
+                        match b.next() {
+                            Some(Ok(v)) if foreign(&v) => {
+                                return Err(Fail::new("fault/late-reply-delivered-to-another-call", format!("`more` call #{} after a failed read (tok {}) was handed {} - a late reply to the earlier call (case {:?})", i, tok, v, c)))
+                            }
+                            Some(Ok(_)) => {}
+                            _ => break,
+                        }
+                    }
+                }
+            }
+            _ => {
+                let _ = b.oneway();
+            }
+        }
+    }
+    Ok(())
+}
+
+fn part_d(ctx: &mut Ctx) {
+    // every combination of the small dimensions
+    let mut total = 0u64;
+    for prior in 0..=2u8 {
+        for more_items in [None, Some(0u8), Some(1), Some(3)] {
+            for kind in 0..4u8 {
+                for late_reply in [true, false] {
+                    for later in [vec![0u8], vec![1], vec![2, 0], vec![0, 0], vec![1, 0], vec![0, 1, 0]] {
+                        let c = FaultCase { prior, more_items, kind, late_reply, later };
+                        total += 1;
+                        ctx.case(if c.late_reply { Some(hash64(&fault_json(&c).to_string())) } else { None });
+                        ctx.class("d:read-fault-between-request-and-reply");
+                        if total % 97 == 0 {
+                            ctx.sample(|| fault_json(&c));
+                        }
+                        if let Err(f) = pt::guard(|| run_read_fault(&c)) {
+                            ctx.violation(&f.key, &f.what, "c07d", fault_json(&c));
+                        }
+                    }
+                }
+            }
+        }
+    }
+    ctx.section("d_read_faults", json!({"cases": total, "exhaustive": true, "fault_kinds": ["TimedOut", "WouldBlock", "ConnectionReset", "Other"]}));
+}
+
 fn top_from(s: &str) -> Option<TOp> {
     match s {
         "Call" => Some(TOp::Call),
@@ -837,7 +979,9 @@ fn replay(ctx: &mut Ctx, v: &Value) {
     let cj = &v["case"];
     ctx.case(None);
     ctx.force_sample(cj.clone());
-    let res = if let Some(r) = cj.get("reply") {
+    let res = if cj.get("read_fault").is_some() {
+        run_read_fault(&fault_from(cj))
+    } else if let Some(r) = cj.get("reply") {
         let mut fake = Fake::new();
         fake.push_replies(std::slice::from_ref(r));
         let got = vcall(&fake.conn, "org.x.M", json!({"a": 1})).call();
@@ -872,6 +1016,7 @@ pub fn run(args: &Args) -> ! {
         "for a standard error whose parameter member is ill-typed only the error kind is asserted".into(),
         "after an iterator is dropped mid-stream nothing further is asserted".into(),
         "(c) samples OS schedules; its oracle is schedule-independent".into(),
+        "(d) after a failed read of a reply only two things are asserted: the call does not report success, and the late reply is handed to no other call".into(),
     ];
     if let Some(p) = &args.replay {
         let v = load_replay(p);
@@ -883,6 +1028,7 @@ pub fn run(args: &Args) -> ! {
     part_b(&mut ctx);
     ctx.bump_sample_cap(5);
     part_c(&mut ctx);
+    part_d(&mut ctx);
     ctx.exhaustive = Some(false);
     ctx.finish()
 }
